@@ -62,6 +62,10 @@ theorem c07_no_caller_stores :
 /-- no function declares a `global`: no hidden module state that a call history could change. -/
 theorem c07_no_global_state : Gen.globalDecls = 0 := by decide
 
+/-- no class keeps a mutable container at class level: nothing a fit or predict writes can be shared
+between instances (e.g. a cache filled by one model and read by another). -/
+theorem c07_no_shared_class_state : Gen.classLevelMutables = [] := by decide
+
 /-- non-vacuity: an in-place wrapper WOULD change the caller's array (this is the defect that was
 repaired in /repo: `x += c.EPSILON`). -/
 example : (wrapperCall [(0, true), (1, true)] 1 [[0, 5], [7]]).2 = [[1, 6], [8]] := by decide
